@@ -39,13 +39,16 @@ def effect_free_variants(ctx, R, rid):
     return free
 
 
-def dup(R, ctx):
+def dup(R, ctx, trivia_rid="C06.copy-trivia"):
     """remove_compound_assign as a transfer function: every effectful operand is evaluated once, in order (finite-domain evaluation)."""
     from .. import peval
     from ..peval import Enum, Struct, UNKNOWN, make
     from .c17 import tags_in_order
     rid = "C06.dup"
     lib = ctx.lib
+    R.rule(trivia_rid, "in every statement remove_compound_assignment writes (same evaluation as C06.dup), the copy of the assigned variable that is read on the "
+                       "right-hand side (`v = <copy> op value`) has been handed to the comment-clearing and the whitespace-clearing walks: a comment "
+                       "kept on the copy is written twice and, under retain_lines, its line breaks push the rest of the line below its original line")
     R.rule(rid, "remove_compound_assignment's process_statement, evaluated from its typed tree on `x += V`, `<P>.f += V` and `<P>[I] += V` with "
                 "the prefix P ranging over every Prefix variant and every parenthesised Expression variant, and I, V over every Expression "
                 "variant: in the statement(s) written, every operand for which Evaluator::has_side_effects is not the constant false occurs "
@@ -90,11 +93,16 @@ def dup(R, ctx):
         prefixes.append(("(%s)" % k, (lambda k=k: Enum(PREFIX, "Parenthese", {"0": make(lib, PAR, {"expression": tagged(k, "P")})})), k in free))
     dflt = lib.fn("<%s as core::default::Default>::default" % PROC)
     bad, unk, n = [], [], 0
+    dirty, n_copies = [], [0]
 
     def trivia_walk(pe_, path, fname, args, node):
         # the copies of an operand are walked by the comment / whitespace clearing processors before they are written a second
         # time; those walks only touch tokens (the operands here are opaque payloads without tokens) and are skipped
         if fname.startswith("visit_") and any(isinstance(a, Struct) and a.adt.rsplit("::", 1)[-1] in TRIVIA_PROCESSORS for a in args):
+            who = next(a.adt.rsplit("::", 1)[-1] for a in args if isinstance(a, Struct) and a.adt.rsplit("::", 1)[-1] in TRIVIA_PROCESSORS)
+            for a in args:
+                if isinstance(a, (Struct, Enum)) and a.adt.rsplit("::", 1)[-1] not in TRIVIA_PROCESSORS:
+                    a.fields["#cleaned:" + who] = True      # this copy went through the trivia-clearing walk
             return peval.UNIT
         return NotImplemented
 
@@ -122,6 +130,19 @@ def dup(R, ctx):
         if isinstance(st, Enum) and st.variant == "CompoundAssign":
             bad.append("`%s` is left as a compound assignment" % label)
             continue
+        # the copy of the variable that is read on the right-hand side (`v = <copy of v> op V`) went through both trivia walks:
+        # a comment kept on the copy is written twice, and its line breaks push what follows below its line
+        def binaries(v):
+            if isinstance(v, Struct) and v.adt.endswith("::BinaryExpression") and "V" in tags_in_order(v.fields.get("right")) and "V" not in tags_in_order(v.fields.get("left")):
+                yield v
+            for x in (v.fields.values() if isinstance(v, (Struct, Enum)) else v if isinstance(v, list) else ()):
+                yield from binaries(x)
+        for b in binaries(st):
+            n_copies[0] += 1
+            left = b.fields.get("left")
+            missing = [w for w in TRIVIA_PROCESSORS if not (isinstance(left, (Struct, Enum)) and left.fields.get("#cleaned:" + w))]
+            if missing:
+                dirty.append("`%s`: the copy of the variable read on the right-hand side is not walked by %s" % (label, missing))
         tags = tags_in_order(st)
         effectful = [t for t, is_free in operands if not is_free] + ["V"]
         order = [t for i, t in enumerate(tags) if t not in tags[:i] and t in effectful]
@@ -136,6 +157,8 @@ def dup(R, ctx):
             bad.append("`%s`: operands are evaluated in the order %s instead of %s" % (label, order, want_order))
     R.require(rid, "floor:duplicated-variants", n >= 300, ctx.where(fn), "%d compound assignments evaluated" % n)
     R.ob(rid, "replace_with|established", not unk, ctx.where(fn), "all %d shapes evaluate" % n if not unk else "not established: %s %s" % unk[0])
+    R.ob(trivia_rid, "replace_with|copy-loses-its-trivia", not dirty, ctx.where(fn), "%d copies, each walked by the comment and the whitespace clearing processors" % n_copies[0] if not dirty else "%s (%d shapes)" % (dirty[0], len(dirty)))
+    R.require(trivia_rid, "floor:copies", n_copies[0] >= 300, ctx.where(fn), "%d right-hand-side copies found" % n_copies[0])
     R.ob(rid, "replace_with|each-effectful-operand-once-in-order", not bad, ctx.where(fn), "all %d shapes" % n if not bad else "%s (%d shapes)" % (bad[0], len(bad)))
 
 
